@@ -2,7 +2,10 @@
 
 package profile
 
-import "strconv"
+import (
+	"math"
+	"strconv"
+)
 
 func init() {
 	vRegister("VerifC14HeapText", VerifC14HeapText)
@@ -450,4 +453,42 @@ func VerifC14JavaText() {
 		}
 	}
 	vObserve(len(p.Sample), len(p.Function))
+}
+
+func init() { vRegister("VerifC14HeapUnsample", VerifC14HeapUnsample) }
+
+// VerifC14HeapUnsample: sampled heap profiles (heap_v2 with a rate above 1):
+// every record is unsampled by 1/(1-exp(-size/count/rate)) computed from that
+// record's own count and size (records enumerated from a pool with equal
+// counts, equal integer block sizes and different remainders; the exponential
+// is outside the solvers' reach, so nothing is symbolic here).
+func VerifC14HeapUnsample() {
+	pool := [][2]int64{{3, 1000}, {3, 1001}, {3, 1002}, {7, 7168}, {1, 524288}, {2, 12}}
+	rate := []int64{512, 524288, 4096}[vChoice("rate", 3)]
+	i, j := vChoice("rec0", len(pool)), vChoice("rec1", len(pool))
+	recs := [][2]int64{pool[i], pool[j]}
+	doc := "heap profile: 1: 2 [ 3: 4] @ heap_v2/" + strconv.FormatInt(rate, 10) + "\n"
+	for k, r := range recs {
+		cs, ss := strconv.FormatInt(r[0], 10), strconv.FormatInt(r[1], 10)
+		doc += "  " + cs + ": " + ss + " [ " + cs + ": " + ss + "] @ " + vTextAddrs[k] + "\n"
+	}
+	p, err := ParseData([]byte(doc))
+	vReach("C14.unsample:parsed")
+	if err != nil || len(p.Sample) != 2 {
+		vAssert(false, "C14.unsample.rejected: a well-formed sampled heap profile was rejected or lost a record")
+		return
+	}
+	for k, r := range recs {
+		avg := float64(r[1]) / float64(r[0])
+		scale := 1 / (1 - math.Exp(-avg/float64(rate)))
+		wc, ws := int64(float64(r[0])*scale), int64(float64(r[1])*scale)
+		v := p.Sample[k].Value
+		// the header's totals differ, so the columns are alloc then in-use (equal here)
+		ok := len(v) == 4
+		if ok {
+			ok = v[0] == wc && v[1] == ws && v[2] == wc && v[3] == ws
+		}
+		vAssert(ok, "C14.unsample.value: a record is not unsampled by the factor of its own count and size")
+	}
+	vObserve(p.Sample[0].Value[0], p.Sample[1].Value[1])
 }
